@@ -89,3 +89,22 @@ pub fn guarded(t: &Tree, level: usize) -> Result<usize, ()> {
 pub fn total_ops(x: Option<u32>) -> u32 {
     x.unwrap_or(7) // control: total despite the name (must NOT be reported)
 }
+
+pub enum Doc {
+    Text(String),
+    List(Vec<Doc>),
+}
+
+impl std::fmt::Display for Doc {
+    fn fmt(&self, f: &mut std::fmt::Formatter<'_>) -> std::fmt::Result {
+        match self {
+            // control: escaping raw data (must NOT be reported)
+            Doc::Text(s) => write!(f, "\"{}\"", s.replace('"', "\\\"")),
+            Doc::List(items) => {
+                // control: the rendering of a sub-term is rewritten before it is written
+                let lines: Vec<String> = items.iter().map(|i| i.to_string().replace('\n', "\n  ")).collect();
+                write!(f, "[{}]", lines.join(", "))
+            }
+        }
+    }
+}
